@@ -7,6 +7,7 @@ import os
 import random
 import sys
 import tempfile
+import zlib
 
 sys.path.insert(0, os.path.dirname(os.path.abspath(__file__)))
 from common import framework as fw  # noqa: E402
@@ -57,15 +58,26 @@ class C01(Property):
                     d["w"], d["h"] = d["cols"], 2 * d["lines"]
                     d["mode"] = rng.choice(["RGBA", "RGBA", "LA", "RGB"])
                     d["alpha"] = rng.choice([0.4, 0.5, 0.4, None, "#"])
+                if not d.get("identity") and rng.random() < 0.2:
+                    # dynamic size: rendered once, the cell ratio changes, rendered again (the second render is judged)
+                    d["dynamic"] = [rng.choice([0.5, 0.25, 1.0]), rng.choice([0.5, 0.25, 1.0, 0.4])]
+                    d["tsize"] = [rng.randrange(8, 50), rng.randrange(5, 30)]
                 d["kitty_term"] = rng.random() < 0.4
                 d["split"] = rng.random() < 0.3
-                kind = "block" + ("-split" if d["split"] else "") + ("-kitty" if d["kitty_term"] else "")
+                kind = "block" + ("-split" if d["split"] else "") + ("-kitty" if d["kitty_term"] else "") + ("-dynamic" if d.get("dynamic") else "")
             else:
                 d["cell"] = rng.choice([(1, 1), (1, 2), (2, 3), (5, 10), (8, 16), (9, 20), (20, 40)])
                 d["method"] = rng.choice(["lines", "whole"] + (["anim"] if style == "iterm2" else []))
                 d["mix"] = rng.random() < 0.4
                 d["compress"] = rng.choice([0, 1, 4, 9])
                 d["term"] = rng.choice(KINDS)
+                if style == "iterm2" and rng.random() < 0.35:
+                    # the terminal identity reaches the class the way it does in real use: through
+                    # is_supported() (name/version from the query layer), with or without forced support
+                    d["via_supported"] = True
+                    d["forced"] = rng.random() < 0.5
+                    d["version"] = {"konsole": rng.choice(["22.04.0", "23.08.1", "22.03.9"]), "iterm2": "3.5.0",
+                                    "wezterm": "20230712-072601-f4abf8fd"}.get(d["term"], "1.0")
                 if style == "iterm2" and d["method"] == "anim" and rng.random() < 0.6:
                     d["animated"] = rng.choice([2, 3])  # a real multi-frame file: native animation path
                 if style == "kitty" and rng.random() < 0.15:
@@ -82,7 +94,7 @@ class C01(Property):
                     d["z"] = rng.choice([0, -1, 1, 2**31 - 1, -(2**31) + 1, rng.randrange(-99, 99)])
                 else:
                     d["jpeg"] = rng.choice([-1, -1, 30, 95])
-                kind = f"{style}-{d['method']}" + (f"-{d['term']}" if style == "iterm2" else "") + ("-native" if d.get("animated") else "") + ("-exact" if d.get("exact") else "")
+                kind = f"{style}-{d['method']}" + (f"-{d['term']}" if style == "iterm2" else "") + ("-native" if d.get("animated") else "") + ("-exact" if d.get("exact") else "") + ("-viasupported" if d.get("via_supported") else "")
             yield Case("", d, kind, True)
 
     # -- run the real code, build the model request from what the real code was given ------
@@ -95,7 +107,13 @@ class C01(Property):
         if style == "block":
             env.set_env(is_on_kitty=d["kitty_term"])
             im = BlockImage(img)
-            if d.get("identity"):
+            if d.get("dynamic"):
+                import term_image as _ti
+                env.set_env(term_size=tuple(d["tsize"]))
+                _ti.set_cell_ratio(d["dynamic"][0])
+                im._renderer(im._render_image, d["alpha"], split_cells=d["split"])  # first render, not judged
+                _ti.set_cell_ratio(d["dynamic"][1])
+            elif d.get("identity"):
                 im.set_size(width=d["cols"], height=d["lines"])
             elif d["cols"] <= 2 * d["lines"]:
                 im.set_size(width=d["cols"])
@@ -121,6 +139,18 @@ class C01(Property):
             return out, line
         env.set_env(cell_size=d["cell"], name=d["term"])
         cls = KittyImage if style == "kitty" else ITerm2Image
+        restore = None
+        if d.get("via_supported"):
+            env.state["name_version"] = (d["term"], d["version"])
+            ITerm2Image._supported = None
+            ITerm2Image._TERM = ITerm2Image._TERM_VERSION = ""
+            supported = d["term"] in ("iterm2", "wezterm") or (d["term"] == "konsole" and d["version"] != "22.03.9")
+            ITerm2Image.forced_support = d["forced"] or not supported
+            d["_eff_term"] = d["term"] if supported else "other"
+
+            def restore():
+                ITerm2Image.forced_support = False
+                ITerm2Image._supported = True
         if d.get("animated"):
             frames = []
             for k in range(d["animated"]):
@@ -131,6 +161,8 @@ class C01(Property):
             im = cls.from_file(path)
         else:
             im = cls(img)
+        if restore:
+            restore()
         im.set_size(width=d["cols"]) if d["cols"] <= d["lines"] else im.set_size(height=d["lines"])
         rw, rh = im.rendered_size
         d["_size"] = [rw, rh]
@@ -155,7 +187,8 @@ class C01(Property):
         cmds = [t for t in toks if t.wire.startswith("I")]
         payloads = [base64.standard_b64decode(t.info["payload"]) for t in cmds]
         whole = d["method"] != "lines"
-        line = (f"iterm {int(whole)} {int(d['term'] == 'konsole')} {int(d['term'] == 'wezterm')} {int(d['mix'])} "
+        eff = d.get("_eff_term", d["term"])
+        line = (f"iterm {int(whole)} {int(eff == 'konsole')} {int(eff == 'wezterm')} {int(d['mix'])} "
                 f"{rw} {rh} {len(payloads)} " + " ".join(hx(p) for p in payloads))
         return out, line
 
@@ -184,7 +217,14 @@ class C01(Property):
         if out.count("\n") != h - 1 or out.endswith("\n"):
             return Failure(f"newlines/{where}", f"{out.count(chr(10))} newlines for {h} lines (or trailing newline)")
         toks = tk.tokenize(out)
-        kind = d.get("term") or ("kitty" if d.get("kitty_term") else "other")
+        for t in toks:
+            if t.wire.startswith("K") and t.info["keys"].get("o") == "z":
+                try:
+                    zlib.decompress(base64.standard_b64decode("".join(c for _, c in t.info["chunks"])))
+                except Exception as e:
+                    return Failure(f"undisplayable/{where}", f"a kitty command says o=z but its payload does not inflate ({e}): "
+                                   "the terminal rejects the image and the rectangle is not covered")
+        kind = d.get("_eff_term") or d.get("term") or ("kitty" if d.get("kitty_term") else "other")
         reqs, places = [], []
         rng = random.Random(hash(case.line) & 0xFFFF)
         for _ in range(3):
